@@ -4,7 +4,7 @@
    absences are zero, Friedel mates are conjugate. The equality of gemmi's floating-point sum with the textbook sum
    and the direct-vs-FFT agreement are decided by oracles on the implementation. *)
 From Coq Require Import Permutation.
-From GV Require Import Sym.SgCheck Sym.AsuDefs Sfc.SfSym Sfc.SfTable Sfc.SfAniso Sfc.SfConseq.
+From GV Require Import Sym.SgCheck Sym.AsuDefs Sfc.SfSym Sfc.SfTable Sfc.SfAniso Sfc.SfConseq Sfc.SfCache.
 Local Open Scope Z_scope.
 
 (* F(hR) = F(h) exp(-2 pi i h.t): for every tabulated group, every rotation part R of it, every hkl,
@@ -82,3 +82,21 @@ Theorem C15_absent_premise_example :
     is_systematically_absent g (0, 1, 0) = true /\ is_systematically_absent g (0, 2, 0) = false.
 Proof. eexists. eexists. split; [reflexivity|]. split; [vm_compute; reflexivity|]. split; vm_compute; reflexivity. Qed.
 Print Assumptions C15_absent_premise_example.
+
+(* ------------------------------------------------------------------------------------------------------------
+   The per-element form-factor cache of StructureFactorCalculator (Sfc/SfCache.v, a model of
+   set_stol2_and_scattering_factors + get_scattering_factor): for ANY sequence of calls made for one reflection
+   (any elements, any charges, in any order) every call returns the value of its own (element, charge) -
+   table value plus addend - whatever was asked before; the cache only ever holds values of neutral atoms.
+   V, the zero test and the value function are arbitrary (only "the empty mark tests as zero" is assumed). *)
+Theorem C15_form_factor_cache : forall (V : Type) (vzero : V) (is_zero : V -> bool) (val : Z -> Z -> V),
+  is_zero vzero = true ->
+  forall calls, snd (run V is_zero val (empty V vzero) calls) = map (fun x => val (fst x) (snd x)) calls.
+Proof. intros V vzero is_zero val H calls. apply (run_correct V is_zero val calls). apply empty_ok. exact H. Qed.
+Print Assumptions C15_form_factor_cache.
+
+(* the snapshot (before the repair) returned the cached neutral value for an ion asked after it: Fe, then Fe3+ *)
+Theorem C15_form_factor_cache_snapshot_refuted :
+  snd (get_sf_snapshot Z tag_is_zero tag (fst (get_sf_snapshot Z tag_is_zero tag (empty Z 0) (26, 0))) (26, 3))
+  <> tag 26 3.
+Proof. exact snapshot_refuted. Qed.
